@@ -37,7 +37,7 @@ ASSUMPTIONS = [
 ]
 REQUIRED_CELLS = {'quick': ['op:write', 'op:total', 'op:T', 'op:P', 'op:phase', 'op:phases', 'op:link', 'op:unlink',
                             'op:copy_like', 'op:reset_thermo', 'op:proxy', 'op:flow_proxy', 'op:dim_error',
-                            'ctor:S,total=1,units=nonbase', 'ctor:M,total=1,units=nonbase', 'ctor:M,total=1,units=none', 'op:read_key', 'op:get_property', 'op:assign', 'op:reset_flow', 'reset_flow:kind=S', 'reset_flow:kind=M', 'reset_flow:dim=vol', 'assign:vol-different-conditions', 'write:view=mass', 'write:view=vol', 'write:via=sub',
+                            'ctor:S,total=1,units=nonbase', 'ctor:M,total=1,units=nonbase', 'ctor:M,total=1,units=none', 'dim_error:indexer.get_data', 'dim_error:get_property', 'dim_error:set_property', 'op:read_key', 'op:get_property', 'op:assign', 'op:reset_flow', 'reset_flow:kind=S', 'reset_flow:kind=M', 'reset_flow:dim=vol', 'assign:vol-different-conditions', 'write:view=mass', 'write:view=vol', 'write:via=sub',
                             'phases:S->M', 'phases:M->M', 'phases:M->S', 'link:full', 'link:partial'],
                   'thorough': []}
 
@@ -789,21 +789,50 @@ class Run:
         self.ctx.cell('op:empty'); self.hist.append(['empty', sm.kind])
 
     def op_dim_error(self, step):
+        """rejection clause: units of another dimension must be refused by every reader / writer, also when the same
+        unit string was used legitimately (with the view of its own dimension) just before, and nothing may change"""
+        import pint
         ch, ctx = self.ch, self.ctx
         name = self.pick('target'); real, sm = self.get(name)
         u = ch.choice('unit', M.BAD_UNITS)
-        call = ch.choice('call', ['get_flow', 'set_flow', 'get_total_flow', 'set_total_flow'])
-        def f():
-            if call == 'get_flow': return real.get_flow(u)
-            if call == 'set_flow': return real.set_flow(1.0, u, sm.pk.names[0] if sm.kind == 'S' else (sm.labels()[0], sm.pk.names[0]))
-            if call == 'get_total_flow': return real.get_total_flow(u)
-            return real.set_total_flow(1.0, u)
-        region = f'call={call}'
+        call = ch.choice('call', ['get_flow', 'set_flow', 'get_total_flow', 'set_total_flow',
+                                  'indexer.get_data', 'indexer.set_data', 'get_property', 'set_property'])
+        ID = sm.pk.names[0]
+        before = vs.dense(real).copy()
+        if call in ('get_flow', 'set_flow', 'get_total_flow', 'set_total_flow'):
+            def f():
+                if call == 'get_flow': return real.get_flow(u)
+                if call == 'set_flow': return real.set_flow(1.0, u, ID if sm.kind == 'S' else (sm.labels()[0], ID))
+                if call == 'get_total_flow': return real.get_total_flow(u)
+                return real.set_total_flow(1.0, u)
+            region = f'call={call}'
+        else:
+            view = ch.choice('view', ['mol', 'mass', 'vol'])
+            cross = [x for x in M.ALL_UNITS if M.UNIT_DIM[x] != view]
+            u = ch.choice('xunit', cross + M.BAD_UNITS)
+            legit = u in M.UNIT_DIM
+            if legit:
+                # the unit string is first used where it belongs (fills whatever conversion caches exist)
+                ctx.call('op.dim_error.legit', real.get_flow, u, region=f'unit-dim={M.UNIT_DIM[u]}')
+            ind = getattr(real, 'i' + view)
+            prop = ch.choice('prop', [view, 'F_' + view])
+            p0 = sm.labels()[0]
+            def f():
+                if call == 'indexer.get_data':
+                    return ind.get_data(u, ID) if sm.kind == 'S' else ind.get_data(u, p0, ID)
+                if call == 'indexer.set_data':
+                    return ind.set_data(1.0, u, ID) if sm.kind == 'S' else ind.set_data(1.0, u, p0, ID)
+                if call == 'get_property': return real.get_property(prop, u)
+                return real.set_property('F_' + view, 1.0, u)
+            region = f'call={call},view={view},unit={"flow-unit-of-other-dimension" if legit else "not-a-flow-unit"}'
         try:
-            ctx.call('op.dim_error', f, allowed=(DimensionError,), region=region)
-        except DimensionError:
-            ctx.cell('op:dim_error'); self.hist.append(['dim_error', call]); return
-        ctx.fail(f'op.dim_error|{region}|accepted', f'{call} accepted units {u!r} of a wrong dimension')
+            ctx.call('op.dim_error', f, allowed=(DimensionError, pint.errors.DimensionalityError), region=region)
+        except (DimensionError, pint.errors.DimensionalityError):
+            after = vs.dense(real)
+            if after.shape != before.shape or not np.array_equal(after, before):
+                ctx.fail(f'op.dim_error|{region}|stream-modified', f'{name}: rejected {call} with {u!r} changed the flows')
+            ctx.cell('op:dim_error'); ctx.cell('dim_error:' + call); self.hist.append(['dim_error', call]); return
+        ctx.fail(f'op.dim_error|{region}|accepted', f'{name}: {call} accepted units {u!r} of a wrong dimension')
 
     def op_read_key(self, step):
         ch, ctx = self.ch, self.ctx
@@ -1081,7 +1110,7 @@ class Run:
 
 
 OPS = [('write', 8), ('total', 3), ('T', 2), ('P', 2), ('phase', 3), ('phases', 3), ('link', 3), ('unlink', 2),
-       ('copy_like', 2), ('reset_thermo', 1), ('proxy', 2), ('empty', 1), ('dim_error', 1), ('read_key', 2), ('sub', 1),
+       ('copy_like', 2), ('reset_thermo', 1), ('proxy', 2), ('empty', 1), ('dim_error', 2), ('read_key', 2), ('sub', 1),
        ('get_property', 2), ('assign', 3), ('reset_flow', 3)]
 OP_LIST = [n for n, w in OPS for _ in range(w)]
 STRUCT = {'T', 'P', 'phase', 'phases', 'link', 'unlink', 'copy_like', 'reset_thermo', 'proxy'}
